@@ -34,7 +34,9 @@ func init() {
 		if !quick(c) {
 			big := mixed
 			big.Name = "Scan_Mixed_styles_big"
-			big.NCommit, big.NTag, big.MaxEnt = 2, 2, 2
+			// measured: 2 commits, 1 tag, 1 entry per tree, 3 styles = 1.5e6 states, 2.5 min (2 entries per
+			// tree: the set of initial states alone is not enumerated in 20 min)
+			big.NCommit, big.NTag, big.MaxEnt = 2, 1, 1
 			p.Check = append(p.Check, big)
 			p.MaxAPI, p.MaxCLIFromTLC, p.NRandom, p.MaxTraces = 50000, 500, 1500, 300
 		}
